@@ -67,6 +67,14 @@ def template(rng: random.Random, bits=64, label_count=8) -> str:
             return f"imul {imm},{src},{rng.choice(rr)}"
         dst = rng.choice(rr) if rng.random() < 0.7 else mem(rng, bits)
         return f"{op} {imm},{rng.choice(rr)},{dst}"
+    if r < 0.64:
+        # segment overrides and string instructions: operands that carry an extra component (%fs:k(a,b,c), %es:(%rdi))
+        full = R64 if bits == 64 else R32[:8]
+        seg = rng.choice(["%fs", "%gs"])
+        return rng.choice([f"mov {seg}:{mem(rng, bits)},{rng.choice(full)}", f"mov {rng.choice(full)},{seg}:{mem(rng, bits)}",
+                           "stos %al,%es:(%rdi)" if bits == 64 else "stos %al,%es:(%edi)",
+                           "movsb %ds:(%rsi),%es:(%rdi)" if bits == 64 else "movsb %ds:(%esi),%es:(%edi)",
+                           f"add {seg}:0x28,{rng.choice(full)}"])
     op = rng.choice(two)
     form = rng.random()
     if form < 0.3:
